@@ -149,7 +149,7 @@ def run(ctx):
                         "DESTROYED keys enter a manager only through an externally read handle (public API)"]
     # ---------------- (M)
     if ctx.thorough:
-        ctx.model_check("MC_KeysetManager", "MC_KeysetManager", stage="M:one manager, ID=1..3, <=3 entries, <=2 handles, ext<=2")
+        ctx.model_check("MC_KeysetManager", "MC_KeysetManager", stage="M:one manager, ID=1..3, <=3 entries, <=2 handles, ext<=2", timeout=5400)
     ctx.model_check("MC_KeysetManager", "MC_KeysetManager_quick", stage="M:one manager, ID=1..3, <=3 entries, <=1 handle, ext<=1")
     ctx.model_check("MC_KeysetManager", "MC_KeysetManager_two", stage="M:two managers (isolation), ID=1..2, <=2 entries")
     if ctx.thorough and not ctx.replay:
